@@ -4,7 +4,7 @@ import random
 import re
 import subprocess
 
-from .common import hexd, sh, build_harness, model_exe
+from .common import hexd, sh, build_harness, model_exe, canon_nan
 
 WRAP = ["-fno-builtin", "-Wl,--wrap=malloc,--wrap=calloc,--wrap=realloc,--wrap=free"]
 
@@ -202,8 +202,8 @@ def compare(impl, model):
     dis = []
     for a, b in zip(hi, hm):
         for k in range(max(len(a), len(b))):
-            x = a[k] if k < len(a) else "<missing>"
-            y = b[k] if k < len(b) else "<missing>"
+            x = canon_nan(a[k]) if k < len(a) else "<missing>"
+            y = canon_nan(b[k]) if k < len(b) else "<missing>"
             if x != y:
                 dis.append((a[0], k, x, y))
                 break
